@@ -156,6 +156,12 @@ def run_case(ctx, case):
     if kind == "solve":
         inst = case["instance"]
         instance = gen.build(inst)
+        if case["seed"] % 6 == 0:
+            # instances carry their own metadata (benchmark files do: recorded optimum, bounds ...)
+            # - also under names the solver uses for its own report
+            instance.metadata.update({"optimum": 1, "makespan": 10**6, "status": "recorded",
+                                      "solved_by": "someone else", "lower_bound": 0})
+            ctx.count("instances_with_colliding_metadata_keys")
         if case.get("tiny_limit"):
             solver = ORToolsSolver(max_time_in_seconds=1e-4)
             ctx.count("tiny_limit_solves")
